@@ -85,6 +85,16 @@ def rules(ctx, db):
         ctx.ob("R1", "entry-points-use-distinct-slots:" + a["name"], single and distinct,
                "every entry point has its own slot (two entry points sharing one slot would overwrite each other's waker)")
 
+    from ..util import waker_refresh_ok
+    rw = [f for f in db.fns.values() if f.name == "compio_io::compat::async_stream::replace_waker" or
+          (f.id.startswith(AS) and f.kind == "fn" and waker_refresh_ok(db, f)[0])]
+    ctx.floor("R1", "waker-slot update helpers of the poll adapter", len(rw), 1)
+    for f in rw:
+        app, ok = waker_refresh_ok(db, f)
+        ctx.ob("R1", "slot-refreshed-unless-will_wake:" + f.name, app and ok,
+               "the entry point's waker slot is overwritten with the caller's waker unless the stored one will_wake it; "
+               "keeping a stale waker because 'the slot is occupied' wakes the wrong task when the caller changed", f)
+
     # ---------------- R2
     B = r"^compio_io::buffer::Buffer$"
     for nm in ("with", "with_sync"):
@@ -111,7 +121,13 @@ def rules(ctx, db):
             p = op_place(adv[0][1]["args"][1])
             locs, cr, _ = data_deps(f, p["l"]) if p else (set(), [], [])
             ok = any(call_matches(ct, r"core::future::future::Future::poll$|Try.*::branch$") for _, ct in cr)
-        ctx.ob("R2", "advance-by-written", ok, "the progress cursor advances by the count the write returned", f)
+        if ok:
+            # ... and by *that* count only: the argument must not be an accumulated sum
+            accum = [st for bi, si, st in f.stmts() if st.get("r", {}).get("k") == "bin" and st["r"].get("x", "").startswith("Add") and st["a"]["l"] in locs]
+            ok = not accum
+        ctx.ob("R2", "advance-by-written", ok,
+               "the progress cursor advances by exactly the count this write returned (not by a running total: the "
+               "cursor is relative to what is still unsent)", f)
         ctx.ob("R2", "reset-only-when-all-flushed", bool(rst) and bool(adv) and all(guarded_by_bool(f, b, r"buffer::Buffer::<B>::advance$", True) is not None for b in rst),
                "the buffer is cleared only after advance() reported that everything was written (an error leaves the unsent tail)", f)
         wz = [bi for bi, si, s in f.stmts() for o in s.get("r", {}).get("ops", []) if "WriteZero" in o.get("k", "")] + \
